@@ -58,7 +58,7 @@ def gen_cases(ctx):
                     if which in ("mf", "both"):
                         cfg["mf"] = limit if which == "mf" else max(1, limit // 2)
                     sizes = sorted(set([max(0, limit - 1), limit, limit + 1] + ([10 * limit] if (limit < 60000 or ctx.tier == "thorough") else [limit + 4096])
-                                       + ([1 << 23] if ctx.tier == "thorough" and limit == 65536 and which == "mm" and fbd else [])))
+                                       + ([1 << 20] if ctx.tier == "thorough" and limit == 65536 and which == "mm" and fbd else [])))
                     for total in sizes:
                         frs = fragmentations(rng, total, limit)
                         if total > 60000 and ctx.tier != "thorough":
